@@ -72,7 +72,7 @@ def rich_doc(rng, variant: int, kind: str = "single", nfig: int = 2) -> dict:
 
     rec = {"kind": kind, "page": {"border_first": bstyle, "border_last": ("double", "single")[variant % 2],
                                   "orientation": ("portrait", "landscape", "portrait")[variant % 3],
-                                  "nrow": (6, 8)[variant % 2] if kind != "figure" else 10,
+                                  "nrow": (5, 6)[variant % 2] if kind != "figure" else 10,
                                   "page_title": ("all", "first")[variant % 2], "page_footnote": ("last", "all")[variant % 2]},
            "title": {"text": [rng.choice(LATEX_TEXTS), "Table 14.1." + str(variant)], "text_color": [pals[1]],
                      "text_convert": [conv], "text_format": [fmt]},
@@ -109,7 +109,7 @@ def rich_doc(rng, variant: int, kind: str = "single", nfig: int = 2) -> dict:
     rec["dfs"], rec["bodies"], hdrs = [], [], []
     for s in range(nsec):
         n = 3 if (s + variant) % 2 == 0 else 2
-        rec["dfs"].append(frame(n, (15, 19)[variant % 2] if s == 0 else 3))  # three or more pages
+        rec["dfs"].append(frame(n, (10, 12)[variant % 2] if s == 0 else 3))  # three or more pages
         rec["bodies"].append(body(n))
         hdrs.append([{"text": [rng.choice(LATEX_TEXTS) for _ in range(n)], "text_color": [[pals[0]]],
                       "text_convert": [[conv]], "border_bottom": [[bstyle]]}])
@@ -155,6 +155,20 @@ def gen_docs(rng, n: int) -> list:
 def gen_plan(rng) -> dict:
     n = 2 if rng.random() < 0.7 else 3
     recs, doc_mode = gen_docs(rng, n)
+    share = None
+    same_doc = None
+    if doc_mode in ("overlap", "rich") and rng.random() < 0.5:
+        # the caller re-uses component objects across the reports it encodes concurrently
+        if doc_mode == "rich" and rng.random() < 0.7:
+            for r in recs[1:]:
+                for c in ("footnote", "source", "title", "page_header", "page_footer"):
+                    if recs[0].get(c) is not None and r["kind"] == recs[0]["kind"] and rng.random() < 0.7:
+                        r[c] = R_json_copy(recs[0][c])
+        sp = rng.choice([0.5, 1.0])
+        share = [{c: rng.random() < sp for c in SHARED_COMPONENTS} for _ in recs]
+    if rng.random() < 0.04:
+        same_doc = {str(n - 1): 0}  # two threads encode the very same document object
+        recs[n - 1] = R_json_copy(recs[0])
     kind = rng.choice(["strata", "strata", "random", "pct", "one"])
     dec: dict = {"kind": kind}
     if kind == "strata":
@@ -176,6 +190,7 @@ def gen_plan(rng) -> dict:
         abort = {"thread": rng.randrange(n), "u": rng.random(),
                  "exc": rng.choice(["MemoryError", "KeyboardInterrupt", "ValueError"]), "k": None}
     return {"recipes": recs, "decider": dec, "first": rng.randrange(n), "doc_mode": doc_mode,
+            "share": share, "same_doc": same_doc,
             "trace_mode": rng.choice(["call", "call", "callret", "line"]), "decisions": None, "abort": abort}
 
 
@@ -215,6 +230,8 @@ class Sched:
         self.hot_sites = set(plan.get("hot_sites") or [])
         self.list_hot = bool(plan.get("list_hot_steps"))
         self.hot_steps: list = []
+        self.priority_steps: list = []
+        self.dirty_probe = None
         dec = plan["decider"]
         self.kind = dec["kind"] if plan.get("decisions") is None else "explicit"
         self.explicit = {int(s): int(t) for s, t in (plan.get("decisions") or [])}
@@ -296,6 +313,8 @@ class Sched:
         self.last_event = time.monotonic()
         if self.list_hot and ev == "line" and not self.decisions:
             self.hot_steps.append(self.step)
+            if self.dirty_probe is not None and self.dirty_probe(i):
+                self.priority_steps.append(self.step)  # a component object is different from its baseline right now
         if self.collect_sites:
             from . import boot
 
@@ -367,6 +386,47 @@ class Sched:
 # --------------------------------------------------------------------------
 
 
+SHARED_COMPONENTS = ["footnote", "source", "title", "subline", "page_header", "page_footer", "page", "body", "header"]
+
+
+def build_docs(plan: dict, figdir: str) -> list:
+    """One document per thread.  plan['share'][i] (component -> bool) lets documents with equal component
+    specs hold the SAME component object (a caller re-using its RTFFootnote, RTFPage ... across reports);
+    plan['same_doc'][i] = j makes thread i encode the very document object of thread j."""
+    recs = plan["recipes"]
+    share = plan.get("share") or [None] * len(recs)
+    same = plan.get("same_doc") or {}
+    pool = R.Pool()
+    docs: list = []
+    for i, r in enumerate(recs):
+        j = same.get(str(i), same.get(i))
+        if j is not None and j < len(docs):
+            docs.append(docs[j])
+            continue
+        holder = {}
+
+        def construct(r=r, holder=holder, i=i):
+            holder["doc"], _ = R.build(r, pool if share[i] else None, share[i], figdir)
+            return "constructed"
+
+        o = R.outcome_of(construct)
+        docs.append(holder.get("doc") if o["k"] == "ok" else None)
+    return docs
+
+
+def doc_component_dumps(doc, attrs=("rtf_body", "rtf_column_header", "rtf_page", "rtf_title", "rtf_subline",
+                                    "rtf_page_header", "rtf_page_footer", "rtf_footnote", "rtf_source")) -> tuple:
+    from . import state
+
+    out = []
+    for attr in attrs:
+        try:
+            out.append(state.component_dump(getattr(doc, attr, None)))
+        except Exception:  # noqa: BLE001
+            out.append("?")
+    return tuple(out)
+
+
 def exec_schedule(arg) -> dict:
     from . import boot, cooplock
     from .trace import EXC_TYPES, in_cleanup
@@ -379,16 +439,7 @@ def exec_schedule(arg) -> dict:
     R.warmup()
     recs = plan["recipes"]
     n = len(recs)
-    docs = []
-    for r in recs:
-        holder = {}
-
-        def construct(r=r, holder=holder):
-            holder["doc"], _ = R.build(r, None, None, figdir)
-            return "constructed"
-
-        o = R.outcome_of(construct)
-        docs.append(holder.get("doc") if o["k"] == "ok" else None)
+    docs = build_docs(plan, figdir)
     tmode = plan.get("trace_mode")
     mult = 2 if tmode == "callret" else 1
 
@@ -399,6 +450,13 @@ def exec_schedule(arg) -> dict:
 
     hint = sum(nbound(refs[str(i)]) for i in range(n))
     sched = Sched(n, plan, hint)
+    if plan.get("list_hot_steps") and plan.get("check_dirty"):
+        shl = plan.get("share") or [None] * n
+        attrs = [tuple(R._COMP_ARG[c] for c in SHARED_COMPONENTS if shl[i] and shl[i].get(c) and c in R._COMP_ARG)
+                 for i in range(n)]
+        bases = [doc_component_dumps(d, attrs[i]) if d is not None else None for i, d in enumerate(docs)]
+        sched.dirty_probe = lambda i: (docs[i] is not None and bool(attrs[i])
+                                       and doc_component_dumps(docs[i], attrs[i]) != bases[i])
     want_ret = tmode == "callret"
     want_line = tmode == "line"
     hot = set(plan.get("hot_sites") or []) if tmode == "hot" else None
@@ -515,10 +573,12 @@ def exec_schedule(arg) -> dict:
         "coop_locks_created": dict(cooplock.CREATED),
         "sites_seen": sorted(sched.sites_seen) if sched.collect_sites else None,
         "hot_steps": sched.hot_steps if sched.list_hot else None,
+        "priority_steps": sched.priority_steps if sched.list_hot else None,
     }
 
 
 PROFILE_GRAIN = 64
+COMPONENT_GRAIN = 16
 
 
 def profile_hot(arg) -> dict:
@@ -547,13 +607,17 @@ def profile_hot(arg) -> dict:
     # function (and its caller) on whose behalf they run
     mutator_hits = _install_mutator_hooks(hot, boot)
     flagged: dict = {}
+    all_docs = build_docs({"recipes": arg["recipes"], "share": arg.get("share")}, figdir)
+    comp_dirty = [0]
     for ri, recipe in enumerate(arg["recipes"]):
-        try:
-            doc, _ = R.build(recipe, None, None, figdir)
-        except BaseException:  # noqa: BLE001
+        doc = all_docs[ri]
+        if doc is None:
             continue
         for rep in range(2):
             key = f"{ri}:{rep}"
+            sh = (arg.get("share") or [None] * len(arg["recipes"]))[ri]
+            comp_attrs = tuple(R._COMP_ARG[c] for c in SHARED_COMPONENTS if sh and sh.get(c) and c in R._COMP_ARG)
+            comp_base = doc_component_dumps(doc, comp_attrs) if comp_attrs else None
             fine = None
             if windows is not None:
                 fine = set()
@@ -565,6 +629,14 @@ def profile_hot(arg) -> dict:
 
             def check(code, caller=None):
                 n[0] += 1
+                if comp_base is not None and n[0] % COMPONENT_GRAIN == 0 \
+                        and doc_component_dumps(doc, comp_attrs) != comp_base:
+                    # a component object of the document is (perhaps only transiently) different from what the
+                    # caller handed in: every function on the stack right now lies inside that window
+                    comp_dirty[0] += 1
+                    for c in stack[-3:]:
+                        k = boot.site_of(c)
+                        hot[k] = hot.get(k, 0) + 1
                 w = n[0] // PROFILE_GRAIN
                 if fine is None:
                     if n[0] % PROFILE_GRAIN:
@@ -609,7 +681,8 @@ def profile_hot(arg) -> dict:
             if fine is None and fs.sig() != last[0]:
                 flagged.setdefault(key, []).append(n[0] // PROFILE_GRAIN)
                 flagged[key].append(n[0] // PROFILE_GRAIN + 1)
-    return {"hot": hot, "flagged": flagged, "slots": len(fs.slots), "mutators": dict(mutator_hits)}
+    return {"hot": hot, "flagged": flagged, "slots": len(fs.slots), "mutators": dict(mutator_hits),
+            "component_dirty": comp_dirty[0]}
 
 
 def _install_mutator_hooks(hot: dict, boot) -> dict:
@@ -677,11 +750,14 @@ def _install_mutator_hooks(hot: dict, boot) -> dict:
     return hits
 
 
-def find_hot_sites(recipes: list, figdir: str) -> dict:
-    p1 = core.run_in_child(profile_hot, {"recipes": recipes, "figdir": figdir})
-    hot = dict(p1["hot"])  # from the mutator hooks (complete in pass 1)
+def find_hot_sites(recipes: list, figdir: str, share=None) -> dict:
+    p1 = core.run_in_child(profile_hot, {"recipes": recipes, "figdir": figdir, "share": share})
+    hot = dict(p1["hot"])  # from the mutator hooks and the component-dirty probe (complete in pass 1)
+    if p1.get("component_dirty"):
+        hot["<component-dirty>"] = p1["component_dirty"]
     if p1["flagged"]:
-        p2 = core.run_in_child(profile_hot, {"recipes": recipes, "figdir": figdir, "windows": p1["flagged"]})
+        p2 = core.run_in_child(profile_hot, {"recipes": recipes, "figdir": figdir, "windows": p1["flagged"],
+                                             "share": share})
         for k, v in p2["hot"].items():
             hot[k] = max(hot.get(k, 0), v)
     return hot
@@ -813,12 +889,7 @@ def sequential_control(arg) -> dict:
     plan, figdir = arg["plan"], arg["figdir"]
     outs = []
     order = arg["order"]
-    docs = {}
-    for i, r in enumerate(plan["recipes"]):
-        try:
-            docs[i], _ = R.build(r, None, None, figdir)
-        except BaseException:  # noqa: BLE001
-            docs[i] = None
+    docs = dict(enumerate(build_docs(plan, figdir)))
     for i in order:
         if docs[i] is None:
             outs.append({"thread": i, "outcome": {"k": "construct_failed"}})
@@ -1001,26 +1072,46 @@ def sweep_groups(root: int, n_groups: int) -> list:
             grouped = r
             break
     PA, PB = rich_doc(rng, 0, "pageby"), rich_doc(rng, 1, "pageby")
+    SBs = _json.loads(_json.dumps(SB))
+    for c in ("footnote", "source", "title", "page_header", "page_footer"):
+        SBs[c] = _json.loads(_json.dumps(SA[c]))  # equal specs: the two documents hold the SAME component objects
     groups = [("single-vs-single", SA, SB), ("multi-vs-figure", MA, FB), ("figure-overlap", FA, FB),
               ("equal-valued", SB, _json.loads(_json.dumps(SB))), ("single-vs-failing", SA, failing or SB),
-              ("pageby-vs-pageby", PA, PB),
+              ("pageby-vs-pageby", PA, PB), ("shared-components", SA, SBs),
               ("multi-vs-multi", MA, MB), ("grouped-vs-single", grouped or MB, SA),
               ("figure-vs-single", FA, SB)]
     return groups[:n_groups]
 
 
+GROUP_SHARE = {"shared-components": [{c: c in ("footnote", "source", "title", "page_header", "page_footer")
+                                       for c in SHARED_COMPONENTS}] * 2}
+
+
 def hot_job(j: dict) -> dict:
     ws = _ws()
-    hot = find_hot_sites(j["recipes"], ws["figdir"])
-    out = {"hot": hot, "hot_steps": {}}
+    share = GROUP_SHARE.get(j.get("name"))
+    hot = find_hot_sites(j["recipes"], ws["figdir"], share)
+    dirty = bool(hot.pop("<component-dirty>", 0))
+    out = {"hot": hot, "hot_steps": {}, "priority_steps": {}, "component_dirty": dirty}
     if hot:
         refs = {str(i): ws["refcache"].get(r) for i, r in enumerate(j["recipes"])}
         for order in (0, 1):
             plan = {"recipes": j["recipes"], "decider": {"kind": "sweep"}, "first": order, "trace_mode": "hot",
-                    "hot_sites": sorted(hot), "decisions": [], "abort": None, "list_hot_steps": True}
+                    "hot_sites": sorted(hot), "decisions": [], "abort": None, "list_hot_steps": True,
+                    "check_dirty": dirty, "share": share}
             res = run_plan(plan, refs, ws["figdir"])
             out["hot_steps"][str(order)] = res["hot_steps"] or []
+            out["priority_steps"][str(order)] = res.get("priority_steps") or []
     return out
+
+
+def _pick(steps: list, priority: list, m: int) -> list:
+    """Up to m pre-emption points: the priority ones (inside a window in which a component object differs
+    from its baseline) first, spread evenly, then evenly strided others."""
+    pri = priority[:: max(1, -(-len(priority) // m))] if priority else []
+    rest_n = max(0, m - len(pri))
+    rest = steps[:: max(1, -(-len(steps) // rest_n))] if rest_n and steps else []
+    return sorted(set(pri) | set(rest))
 
 
 def sweep_jobs(root: int, groups: list, refcache: RefCache, specs: list, hot_info: dict, hot_cap: int,
@@ -1041,7 +1132,7 @@ def sweep_jobs(root: int, groups: list, refcache: RefCache, specs: list, hot_inf
             off = core.rng_for(root, PROP, "sweep-offset", gi, order, trace_mode).randrange(stride) if stride > 1 else 0
             for k in range(1 + off, K + 1, stride):
                 plan = {"recipes": recs, "decider": {"kind": "sweep"}, "first": first, "trace_mode": trace_mode,
-                        "decisions": [[k, 1 - first]], "abort": None}
+                        "decisions": [[k, 1 - first]], "abort": None, "share": GROUP_SHARE.get(name)}
                 jobs.append({"idx": idx, "sweep": {"group": name, "order": order, "k": k, "K": K, "mode": trace_mode,
                                                    "stride": stride}, "plan": plan})
                 idx += 1
@@ -1056,8 +1147,8 @@ def sweep_jobs(root: int, groups: list, refcache: RefCache, specs: list, hot_inf
         sa = info["hot_steps"].get("0", [])
         sb = info["hot_steps"].get("1", [])
         m = max(1, int(hot3_cap ** 0.5))
-        pick_a = sa[:: max(1, -(-len(sa) // m))]
-        pick_b = sb[:: max(1, -(-len(sb) // m))]
+        pick_a = _pick(sa, info.get("priority_steps", {}).get("0", []), m)
+        pick_b = _pick(sb, info.get("priority_steps", {}).get("1", []), m)
         # two threads, two or three switches: A paused inside a hot function, B paused inside a hot
         # function, A resumes (to completion, or just for d more boundaries), then B
         for k1 in pick_a:
@@ -1065,16 +1156,18 @@ def sweep_jobs(root: int, groups: list, refcache: RefCache, specs: list, hot_inf
                 for d in (None, 1, 2, 4, 8):
                     decs = [[k1, 1], [k1 + j2, 0]] + ([[k1 + j2 + d, 1]] if d else [])
                     plan = {"recipes": [a, b], "decider": {"kind": "sweep"}, "first": 0, "trace_mode": "hot",
-                            "hot_sites": sorted(info["hot"]), "decisions": decs, "finish_pref": [0, 1], "abort": None}
+                            "hot_sites": sorted(info["hot"]), "decisions": decs, "finish_pref": [0, 1], "abort": None,
+                            "share": GROUP_SHARE.get(name)}
                     jobs.append({"idx": idx, "sweep": {"group": name, "order": 0, "k": k1, "K": len(sa),
                                                        "mode": "hot2x", "stride": 0}, "plan": plan})
                     idx += 1
         for k1 in pick_a:
             for j2 in pick_b:
                 for pref in ([0, 1], [1, 0]):
+                    sh = GROUP_SHARE.get(name)
                     plan = {"recipes": [a, b, c], "decider": {"kind": "sweep"}, "first": 0, "trace_mode": "hot",
                             "hot_sites": sorted(info["hot"]), "decisions": [[k1, 1], [k1 + j2, 2]],
-                            "finish_pref": pref, "abort": None}
+                            "finish_pref": pref, "abort": None, "share": (sh + [None]) if sh else None}
                     jobs.append({"idx": idx, "sweep": {"group": name + "+third", "order": pref[0], "k": k1, "K": len(sa),
                                                        "mode": "hot3", "stride": 0}, "plan": plan})
                     idx += 1
@@ -1088,7 +1181,8 @@ def sweep_jobs(root: int, groups: list, refcache: RefCache, specs: list, hot_inf
             stride = max(1, -(-len(steps) // hot_cap))
             for k in steps[::stride]:
                 plan = {"recipes": [a, b], "decider": {"kind": "sweep"}, "first": order, "trace_mode": "hot",
-                        "hot_sites": sorted(info["hot"]), "decisions": [[k, 1 - order]], "abort": None}
+                        "hot_sites": sorted(info["hot"]), "decisions": [[k, 1 - order]], "abort": None,
+                        "share": GROUP_SHARE.get(name)}
                 jobs.append({"idx": idx, "sweep": {"group": name, "order": order, "k": k, "K": len(steps),
                                                    "mode": "hot", "stride": stride}, "plan": plan})
                 idx += 1
@@ -1099,11 +1193,11 @@ def sweep_jobs(root: int, groups: list, refcache: RefCache, specs: list, hot_inf
 # batch
 # --------------------------------------------------------------------------
 
-TIERS = {"quick": {"runs": 1000, "wall": 420.0, "groups": 6, "hot_cap": 600, "hot3_cap": 100,
-                   "sweeps": [(0, "call", 32), (1, "call", 32), (2, "call", 8), (3, "call", 32), (4, "call", 32),
-                              (5, "call", 1024), (0, "line", 256)]},
-         "thorough": {"runs": 60000, "wall": 3000.0, "groups": 9, "hot_cap": 4000, "hot3_cap": 2500,
-                      "sweeps": [(i, "callret", 1) for i in range(9)] + [(i, "line", 4) for i in range(9)]}}
+TIERS = {"quick": {"runs": 800, "wall": 420.0, "groups": 7, "hot_cap": 600, "hot3_cap": 100,
+                   "sweeps": [(0, "call", 48), (1, "call", 48), (2, "call", 8), (3, "call", 64), (4, "call", 48),
+                              (5, "call", 1024), (6, "call", 48), (0, "line", 384)]},
+         "thorough": {"runs": 60000, "wall": 3000.0, "groups": 10, "hot_cap": 4000, "hot3_cap": 2500,
+                      "sweeps": [(i, "callret", 1) for i in range(10)] + [(i, "line", 4) for i in range(10)]}}
 
 
 def main(opts) -> int:
@@ -1120,7 +1214,7 @@ def main(opts) -> int:
     figdir = tempfile.mkdtemp(prefix="vc15main_")
     rc = RefCache(figdir)
     groups = sweep_groups(root, tier["groups"])
-    hres, _ = core.pool_map(hot_job, [{"recipes": [a, b]} for _n, a, b in groups])
+    hres, _ = core.pool_map(hot_job, [{"recipes": [a, b], "name": _n} for _n, a, b in groups])
     hot_info = {}
     herrs = []
     for gi, r in sorted(hres.items()):
